@@ -31,8 +31,11 @@ META = {
         'every changed pixel is compared with the reference region; complete filling is demanded exactly when the region held no '
         'fill-coloured pixel. 12 adapter/mode pairs (1, 2 and 4 bits per pixel); a seed-independent set of trap shapes runs in every shard.'),
     'level_note': (
-        'Only solid PAINT with explicit fill and border attributes inside the attribute range is covered (tiled PAINT, default border, '
-        'attribute clamping and WINDOW are not pinned by the statement). When the region already contains fill-coloured pixels the '
+        'Only solid PAINT is covered (tiled PAINT and WINDOW are not pinned). Colour NUMBERS beyond the highest attribute are used for fill and '
+        'border, with the walls drawn with the same number; which attribute a number denotes is OBSERVED (PSET with that number on a scratch '
+        'pixel, read from the page buffer), never modelled. Omitted border = the paint attribute, and omitted paint = the attribute PSET '
+        'without colour stores, are taken from the GW-BASIC manual. Negative numbers denote no attribute: executed and counted, nothing '
+        'demanded. When the region already contains fill-coloured pixels the '
         'statement allows an incomplete fill: only the "changes only region pixels, to the fill attribute" clauses are checked then. '
         'PAINTs ended by the harness step budget are discarded. Trusted: the page-buffer read (validated against Session.get_pixels).'),
     'rule': ('case = (mode, viewport, planted bitmap statements, seed, fill, border); distinct by the hash of the before-snapshot of the '
@@ -40,7 +43,7 @@ META = {
              'border pixel / outside the viewport'),
     'design_ref': 'DESIGN.md section 4 C32',
     'assumptions': ['planting statements (LINE, PSET, CIRCLE, PUT) only prepare the picture; the snapshot before PAINT is the ground truth'],
-    'require_counters': {'any': ['paints', 'paints_changed_pixels', 'complete_fill_demanded', 'region_touches_viewport_edge',
+    'require_counters': {'any': ['paints_out_of_range_border', 'paints_out_of_range_fill', 'paints_border_omitted', 'paints_fill_and_border_omitted', 'paints', 'paints_changed_pixels', 'complete_fill_demanded', 'region_touches_viewport_edge',
                                  'seed_on_border', 'seed_outside_viewport', 'view_on', 'view_off', 'region_had_fill_pixels',
                                  'shape_maze', 'shape_spiral', 'shape_diagonals', 'shape_serpentine']},
     'timeout': {'quick': 900, 'thorough': 3600},
@@ -71,6 +74,7 @@ class Plant(object):
         self.g = g
         self.stmts = []
         self.dimmed = False
+        self.gap = 0            # an attribute different from the border, for openings in walls
 
     def line(self, x0, y0, x1, y1, c, shape=b''):
         self.stmts.append(b'LINE(%d,%d)-(%d,%d),%d' % (x0, y0, x1, y1, c) + (b',' + shape if shape else b''))
@@ -166,11 +170,11 @@ def shape_maze(pl, rng, box, b):
         if rng.random() < 0.5:
             xx = x0 + rng.randrange(nx) * cell + 1
             yy = rng.choice([y0, y0 + ny * cell])
-            pl.line(xx, yy, min(xx + cell - 2, xx + 3), yy, 0 if b else 1)
+            pl.line(xx, yy, min(xx + cell - 2, xx + 3), yy, pl.gap)
         else:
             yy = y0 + rng.randrange(ny) * cell + 1
             xx = rng.choice([x0, x0 + nx * cell])
-            pl.line(xx, yy, xx, min(yy + cell - 2, yy + 3), 0 if b else 1)
+            pl.line(xx, yy, xx, min(yy + cell - 2, yy + 3), pl.gap)
 
 
 def shape_spiral(pl, rng, box, b, gap=None):
@@ -297,10 +301,47 @@ class Painter(object):
         self.res = res
         self.spec = spec
         self.nb = 0
+        self._attr_of = {}
+
+    # -- colour NUMBERS vs attributes ---------------------------------------------------
+    # Which attribute a colour number denotes in this mode is OBSERVED, not modelled: the number is
+    # given to PSET on a scratch pixel and the stored attribute is read from the page buffer (None if
+    # PSET refuses the number).  PAINT is then judged with the attributes its numbers denote, and the
+    # walls are drawn with the very same number PAINT gets as border.
+    ALIASES = [2, 3, 4, 5, 9, 15, 16, 17, 31, 100, 200, 255]
+
+    def attr_of(self, number):
+        if number in self._attr_of:
+            return self._attr_of[number]
+        g = self.g
+        g.direct(b'VIEW')
+        val = None
+        seen = set()
+        ok = True
+        for base in (0, 1):
+            g.direct(b'PSET(0,0),%d' % base)
+            stmt = b'PSET(0,0)' if number is None else b'PSET(0,0),%d' % number
+            if g.trap(stmt) != 0:
+                ok = False
+                break
+            seen.add(g.active()[0])
+        if ok and len(seen) == 1:
+            val = seen.pop()
+            if val >= g.nattr:
+                val = None
+        self._attr_of[number] = val
+        return val
+
+    def spell(self, rng, attr, high=False):
+        """A colour number denoting `attr`: the attribute itself or an out-of-range alias of it."""
+        al = [n for n in self.ALIASES if n >= self.g.nattr and self.attr_of(n) == attr]
+        if al and (high or rng.random() < 0.45):
+            return rng.choice(al) if not high else al[-1]
+        return attr
 
     def colours(self, rng):
         n = self.g.nattr
-        b = rng.randrange(n)
+        b = rng.randrange(n) if rng.random() < 0.65 else n - 1
         others = [c for c in range(n) if c != b]
         bg = rng.choice(others)
         return b, bg, others
@@ -316,11 +357,28 @@ class Painter(object):
             return bg
         return rng.choice([c for c in range(n) if c not in (b, bg)] or [b])
 
-    def bitmap(self, rng, shapes=None, geometry=None, paints=3, seeds=None, fills=None, colours=None):
+    def bitmap(self, rng, shapes=None, geometry=None, paints=3, seeds=None, fills=None, colours=None, high=False):
         g, res = self.g, self.res
         w, h = g.w, g.h
         g.direct(b'VIEW:CLEAR')       # no viewport, no variables (the sprite array is dimensioned when needed)
         b, bg, others = colours or self.colours(rng)
+        # how the PAINT statements of this bitmap spell their arguments
+        form = 'explicit'
+        if colours is None:
+            r = rng.random()
+            if r < 0.08:
+                form = 'border-omitted'        # GW-BASIC manual: the border defaults to the paint attribute
+            elif r < 0.12:
+                form = 'both-omitted'          # paint attribute defaults to the foreground, as in PSET without colour
+        if form == 'both-omitted':
+            d = self.attr_of(None)
+            if d is None:
+                form = 'explicit'
+            else:
+                b = d
+                others = [c for c in range(g.nattr) if c != b]
+                bg = rng.choice(others)
+        bnum = self.spell(rng, b, high)
         # geometry: viewport rectangle V (<= 120x80) and how it is established
         if geometry is None:
             bw, bh = rng.randint(4, min(120, w - 8)), rng.randint(4, min(80, h - 8))
@@ -342,6 +400,7 @@ class Painter(object):
         margin = rng.choice([0, 2, 5])
         P = clampbox(g, V[0] - margin, V[1] - margin, V[2] + margin, V[3] + margin)
         pl = Plant(g)
+        pl.gap = bg
         # wipe a generous area around the bitmap with the background, then plant
         W = clampbox(g, V[0] - 8, V[1] - 8, V[2] + 8, V[3] + 8)
         if view == 'open':
@@ -357,21 +416,21 @@ class Painter(object):
             if isinstance(sh, str):
                 res.count('shape_' + sh)
             if sh == 'maze':
-                shape_maze(pl, rng, P, b)
+                shape_maze(pl, rng, P, bnum)
             elif sh == 'spiral':
-                shape_spiral(pl, rng, P, b)
+                shape_spiral(pl, rng, P, bnum)
             elif sh == 'diagonals':
-                shape_diagonals(pl, rng, P, b)
+                shape_diagonals(pl, rng, P, bnum)
             elif sh == 'serpentine':
-                shape_serpentine(pl, rng, P, b)
+                shape_serpentine(pl, rng, P, bnum)
             elif sh == 'blobs':
-                shape_blobs(pl, rng, P, b)
+                shape_blobs(pl, rng, P, bnum)
             elif sh == 'noise':
-                shape_noise(pl, rng, P, b, others)
+                shape_noise(pl, rng, P, bnum, others)
             elif sh == 'stamps':
-                shape_stamps(pl, rng, P, b, g)
+                shape_stamps(pl, rng, P, bnum, g)
             elif callable(sh):
-                sh(pl, P, b, bg)
+                sh(pl, P, bnum, bg)
         # distractors: pixels / short lines in attributes that are neither border nor (necessarily) fill
         for _ in range(rng.randint(0, 6)):
             c = rng.choice(others)
@@ -382,7 +441,7 @@ class Painter(object):
                 pl.line(xx, yy, min(P[2], xx + rng.randint(0, 9)), yy, c)
         if view in ('off',):
             # close the area: a frame in the border attribute just outside V (where the screen allows)
-            pl.line(V[0] - 1, V[1] - 1, V[2] + 1, V[3] + 1, b, b'B')
+            pl.line(V[0] - 1, V[1] - 1, V[2] + 1, V[3] + 1, bnum, b'B')
             # the frame must be intact: redraw nothing over it afterwards
         try:
             nst = pl.flush()
@@ -419,7 +478,28 @@ class Painter(object):
             else:
                 kind, (sx, sy) = self.pick_seed(rng, before, V, rect, b, view)
             f = fills[k % len(fills)] if fills else self.pick_fill(rng, b, bg)
-            stmt = b'PAINT(%d,%d),%d,%d' % (sx - ox, sy - oy, f, b)
+            judgeable = True
+            if form == 'explicit':
+                fnum = self.spell(rng, f, high)
+                if colours is None and rng.random() < 0.02:
+                    # a negative number: no attribute is denoted, nothing is demanded (counted only)
+                    judgeable = False
+                    res.count('paints_negative_number')
+                    stmt = b'PAINT(%d,%d),%d,%d' % ((sx - ox, sy - oy, -1, bnum) if rng.random() < 0.5 else (sx - ox, sy - oy, fnum, -1))
+                else:
+                    stmt = b'PAINT(%d,%d),%d,%d' % (sx - ox, sy - oy, fnum, bnum)
+                    if bnum >= g.nattr:
+                        res.count('paints_out_of_range_border')
+                    if fnum >= g.nattr:
+                        res.count('paints_out_of_range_fill')
+            elif form == 'border-omitted':
+                f = b
+                stmt = b'PAINT(%d,%d),%d' % (sx - ox, sy - oy, bnum)
+                res.count('paints_border_omitted')
+            else:
+                f = b
+                stmt = b'PAINT(%d,%d)' % (sx - ox, sy - oy)
+                res.count('paints_fill_and_border_omitted')
             case = {'mode': g.mode['label'], 'view': view, 'viewport': list(V), 'shapes': [s if isinstance(s, str) else 'directed' for s in shapes],
                     'seed_abs': [sx, sy], 'stmt': stmt, 'bitmap_no': self.nb, 'border': b, 'fill': f}
             try:
@@ -436,6 +516,9 @@ class Painter(object):
                 res.inconclusive('harness: PAINT could not be run (%d)' % code)
                 return
             after = g.active()
+            if not judgeable:
+                res.case((g.mode['label'], 'negative', stmt, self.nb), nontrivial=False)
+                continue
             self.judge(before, after, rect, V, (sx, sy), f, b, kind, code, case, view)
 
     def pick_seed(self, rng, snap, V, rect, b, view):
@@ -649,6 +732,10 @@ def directed(pt):
             if (gi + len(name)) % 2:
                 seeds = seeds[3:] + seeds[:3]
             pt.bitmap(rng, shapes=[fn], geometry=geom, paints=len(seeds), seeds=seeds, fills=fills, colours=(b, bg, [c for c in range(n) if c != b]))
+            if gi < 2 and name in ('empty', 'diag-split', 'comb', 'serpentine-h1', 'islands'):
+                # the same picture with border (walls AND PAINT) and fill spelled as out-of-range numbers
+                pt.bitmap(rng, shapes=[fn], geometry=geom, paints=len(seeds), seeds=seeds, fills=fills,
+                          colours=(b, bg, [c for c in range(n) if c != b]), high=True)
 
 
 def run_shard(spec, res):
